@@ -126,10 +126,11 @@ Section Checks.
     | x :: r => in_range x p && negb (x =? h) && forallb (fun y => negb (x =? y)) r && others_ok h p r
     end.
 
-  (* sign_test: the check starts with `if (mpz_sgn(q) <= 0) throw false` (fix 7223137: every class below except
-     PedersenCommitmentScheme and, through it, GrothSKC/GrothVSSHE).
+  (* sign_test: the check starts with `if (mpz_sgn(q) <= 0) throw false` -- since fixes 7223137 and 07cfbe5 every class of
+     this family does (the flag is kept so that the theorems also describe the code before those fixes).
      derive_k: k := (p-1) div q after that sign test (VRHE, PedersenVSS, DKGs, RVSS, ZVSS, DSS, NTS, JL-RVSS, EOTP);
-     otherwise k is a stored parameter (PedersenCommitmentScheme: no sign test; PedersenTrapdoorCommitmentScheme: sign test).
+     otherwise k is a stored parameter (PedersenCommitmentScheme and GrothSKC/GrothVSSHE through it,
+     PedersenTrapdoorCommitmentScheme).
      canonical: the first element of gs must be the verifiably derived generator. *)
   Definition check_group_gens (fuel : nat) (F G : Z) (sign_test derive_k canonical : bool) (p q k0 h : Z) (gs : list Z) : verdict :=
     if (sign_test || derive_k) && (q <=? 0) then Reject
